@@ -81,8 +81,10 @@ OpHolds(op, c3) ==
 \* how a scalar is read as an operand (fmt %v): strings as they are, integers in decimal, booleans as true/false
 RECURSIVE Digits(_)
 Digits(n) == IF n < 10 THEN <<48 + n>> ELSE Append(Digits(n \div 10), 48 + (n % 10))
+\* operators compare values as they are printed: a value of a defined string type with its own String() (a name type "" prints
+\* as "Normal") carries the printed form in p
 OperandText(x) ==
-  CASE x.t = "str" -> x.s
+  CASE x.t = "str" -> (IF "p" \in DOMAIN x THEN x.p ELSE x.s)
     [] x.t = "int" -> (IF x.n < 0 THEN <<45>> \o Digits(-x.n) ELSE Digits(x.n))
     [] x.t = "bool" -> (IF x.b THEN <<116, 114, 117, 101>> ELSE <<102, 97, 108, 115, 101>>)
 IsScalar(x) == x.t \in {"str", "int", "bool"}
